@@ -113,8 +113,12 @@ class Ctx(object):
                 return False
             if c[0] == 'seeds' and not (set(pixels) & set(c[1])):
                 return False
-            if c[0] == 'npixacc' and not (len(pixels) >= c[1]):
+            if c[0] in ('npixacc', 'npixget') and not (len(pixels) >= c[1]):
                 return False
+            if c[0] == 'udelta':
+                base = value if mode == 'merge' else vmin if mode == 'orphan' else parent_height
+                if not (vmax - base >= c[1]):
+                    return False
         return True
 
     def regional_maxima(self):
